@@ -8,8 +8,8 @@ def P(i): return mk("param", i)
 def HI(t): return mk("field", t, 0)
 def LO(t): return mk("field", t, 1)
 
-def tree_of(facts, body, level="prim", keep=(), inline_extra=(), args=None, max_nodes=40000):
-    pol = vg.Policy(facts, level, keep=keep, inline_extra=inline_extra)
+def tree_of(facts, body, level="prim", keep=(), inline_extra=(), args=None, max_nodes=40000, inline_private=False):
+    pol = vg.Policy(facts, level, keep=keep, inline_extra=inline_extra, inline_private=inline_private)
     ex = vg.Exec(facts, pol, max_nodes=max_nodes)
     return ex.run_body(body, args)
 
